@@ -2,7 +2,8 @@
 """tools/test_py2lean2f.py — self-test of harness/py2lean2f.py: translates sample functions that use the constructs the
 module adds (nested def as a lambda, the "define the default callback" idiom with an optional variable, python variables
 in rule templates, `if` on a literal, skipped statements, a comprehension whose element may raise -> List.mapM, a tuple
-bound to a call that may raise, keyword arguments in any order, a decorator's inner function), type-checks the Lean
+bound to a call that may raise, keyword arguments in any order, a decorator's inner function, module-level helpers
+inlined at their call sites / used as values, membership in a literal tuple), type-checks the Lean
 text and compares `#eval` of the translation with Python on a grid of inputs.  Exit 0 iff everything agrees."""
 import itertools, os, subprocess, sys, tempfile
 ROOT = os.path.dirname(os.path.dirname(os.path.abspath(__file__)))
@@ -84,6 +85,34 @@ def deco(wrapped):
     return wrapper
 
 
+def _h_default(v, extra=0):
+    return v + 7
+
+
+def _h_split(x, k, mode):
+    # a helper with early returns and a raise, as an extracted block
+    if mode == 0:
+        y = x + k
+        return y, y * 2
+    if mode == 1:
+        return x - k, k
+    raise ValueError("mode")
+
+
+def f_helper(x, k, mode, fn=None):
+    if fn is None:
+        fn = _h_default
+    a, b = _h_split(x, k, mode)
+    if mode in (0, 5):
+        return fn(a) + b
+    return a - b
+
+
+def f_helper_ret(x, k, mode):
+    y = x * 2
+    return _h_split(y, k=k, mode=mode)
+
+
 def R(**kw):
     return F.Rules2F(
         expr=[("checked_div($a, $b)", "(if {b} == 0 then none else some ({a} / {b}))", "bind"),
@@ -114,6 +143,8 @@ def fmt(v):
         return "none"
     if isinstance(v, list):
         return "some [" + ", ".join(str(x) for x in v) + "]"
+    if isinstance(v, tuple):
+        return "some (" + ", ".join(str(x) for x in v) + ")"
     return "some " + ("(%d)" % v if v < 0 else str(v))
 
 
@@ -153,6 +184,15 @@ def main():
     case("f_kwargs", "(x k : Int) : Option Int",
          T(R()).function(f_kwargs, {"x": "x", "k": "k"}),
          [("(%d) (%d)" % (a, b), (lambda a=a, b=b: f_kwargs(a, b))) for a in (-2, 0, 3) for b in (-1, 4)])
+    H = {"_h_default": F.source_ast(_h_default)[0], "_h_split": F.source_ast(_h_split)[0]}
+    case("f_helper", "(x k mode : Int) (fn : Option (Int → Int → Int)) : Option Int",
+         T(R(optional={"fn": "Int → Int → Int"}, helpers=H)).function(f_helper, {"x": "x", "k": "k", "mode": "mode", "fn": "fn"}),
+         [("(%d) (%d) (%d) none" % (a, b, m), (lambda a=a, b=b, m=m: f_helper(a, b, m))) for a in (-2, 0, 3) for b in (-1, 4)
+          for m in (0, 1, 2)])
+    case("f_helper_ret", "(x k mode : Int) : Option (Int × Int)",
+         T(R(helpers=H)).function(f_helper_ret, {"x": "x", "k": "k", "mode": "mode"}),
+         [("(%d) (%d) (%d)" % (a, b, m), (lambda a=a, b=b, m=m: f_helper_ret(a, b, m))) for a in (-2, 3) for b in (-1, 4)
+          for m in (0, 1, 2)])
     inner = F.decorator_shape(deco, "wrapper", [])
     case("f_deco", "(w : Int → Int) (x : Int) : Option Int",
          T(R()).function_node(inner, {"x": "x", "args": "()", "kwargs": "()"}),
